@@ -100,6 +100,19 @@ def main(tier):
     line_m = list(range(ln_lo - 5, ln_hi + 6)) + EXTREME
     trans_m = list(range(tr_lo - 5, tr_hi + 6)) + EXTREME
     group_vals = {mac.int[g + '_LINE'] for g in LINE_GROUPS}
+    # the Siegbahn names are aliases of IUPAC names: each must denote the transition the nomenclature assigns to it (the numeric macro
+    # values are checked against the data files below; this ties the NAMES a user writes to those values)
+    nalias = 0
+    for sieg, iupac in refdata.SIEGBAHN.items():
+        a, b = mac.int.get(sieg + '_LINE'), mac.int.get(iupac + '_LINE')
+        if a is None or b is None:
+            continue
+        nalias += 1
+        if a != b:
+            other = [n for n, v in mac.by_suffix('_LINE').items() if v == a and n not in refdata.SIEGBAHN]
+            ck.violation('c01:alias:%s_LINE' % sieg, '%s_LINE has the value %d, i.e. %s, but the Siegbahn line %s is the transition %s (value %d)' % (
+                sieg, a, '/'.join(other) or '?', sieg, iupac, b), dict(macro=sieg + '_LINE', value=a, iupac=iupac + '_LINE', iupac_value=b))
+    st['siegbahn_aliases_checked'] = nalias
     flavours = ['plain'] if tier == 'quick' else ['plain', 'asan']
     cp = refdata.compton()
     for config in ('shipped', 'kissel'):
